@@ -430,7 +430,7 @@ func (cl *cluster) key() string {
 	if len(cl.cleanerStuck) > 0 {
 		fmt.Fprintf(&b, "STUCK %v\n", cl.cleanerStuck)
 	}
-	fmt.Fprintf(&b, "B %v sticky=%v task=%s adds=%v xferfail=%v/%d fiemapfail=%v/%d\n", bl, cl.stickyREST, cl.taskDesc(), pa, cl.failXfer, cl.cnt["transfers_failed"], cl.failFiemap, cl.cnt["fiemap_failures_injected"])
+	fmt.Fprintf(&b, "B %v sticky=%v task=%s adds=%v xferfail=%v%v/%d fiemapfail=%v/%d\n", bl, cl.stickyREST, cl.taskDesc(), pa, cl.failXfer, cl.killXfer, cl.cnt["transfers_failed"], cl.failFiemap, cl.cnt["fiemap_failures_injected"])
 	var ack []string
 	for id := 1; id <= cl.nWrites; id++ {
 		ack = append(ack, fmt.Sprintf("%v@%d", cl.acked[id] && !cl.undone[id], blockOf(id)))
@@ -701,6 +701,10 @@ func (cl *cluster) enabled() []string {
 			if cl.task != nil && !cl.task.done && !cl.failFiemap && faultsLeft(1) && cl.cnt["fiemap_failures_injected"] == 0 && cl.cnt["ev_FiemapFail"] == 0 {
 				out = append(out, "FiemapFail")
 			}
+		case "XferKill":
+			if c.RealAgent && cl.task != nil && !cl.task.done && !cl.failXfer && !cl.killXfer && faultsLeft(1) && cl.cnt["transfers_failed"] == 0 {
+				out = append(out, "XferKill")
+			}
 		case "XferFail":
 			if cl.task != nil && !cl.task.done && (cl.task.kind == "rebuild" || cl.task.kind == "clone") && !cl.failXfer && faultsLeft(1) && cl.cnt["transfers_failed"] == 0 {
 				out = append(out, "XferFail")
@@ -727,6 +731,10 @@ func (cl *cluster) enabled() []string {
 					seen[b] = true
 					out = append(out, fmt.Sprintf("UnB:%d", b))
 				}
+			}
+		case "Crash":
+			if cl.task != nil && cl.task.done && cl.task.err != nil && !cl.task.killed && !cl.task.crashed && cl.task.kind == "rebuild" {
+				out = append(out, "Crash")
 			}
 		case "Kill":
 			if cl.task != nil && !cl.task.done && (c.MaxRestarts == 0 || cl.nRestart < c.MaxRestarts) {
